@@ -139,7 +139,22 @@ def sweep_db(path, ps):
     con.execute("CREATE INDEX deep_t ON deep(t, id)")
     con.commit()
     con.close()
-    return gen.describe(path)
+    desc = gen.describe(path)
+    # a table whose key column has a collation the reader does not know (a valid file: the application that wrote it
+    # registered "mycoll"); made after describe(), whose own connection does not know the collation either
+    con = sqlite3.connect(path)
+    con.create_collation("mycoll", lambda a, b: (a > b) - (a < b))
+    con.execute("CREATE TABLE wc(k TEXT COLLATE mycoll PRIMARY KEY, v) WITHOUT ROWID")
+    con.execute("CREATE INDEX wc_v ON wc(v)")
+    con.execute("CREATE TABLE rc(a TEXT COLLATE mycoll UNIQUE, b)")
+    for i in range(6):
+        con.execute("INSERT INTO wc VALUES(?,?)", ("key%d" % i, i % 3))
+        con.execute("INSERT INTO rc VALUES(?,?)", ("val%d" % i, i))
+    con.commit()
+    con.close()
+    desc["tables"]["wc"] = {"columns": [{"name": "k"}, {"name": "v"}], "indexes": {"wc_v": {}}}
+    desc["tables"]["rc"] = {"columns": [{"name": "a"}, {"name": "b"}], "indexes": {"sqlite_autoindex_rc_1": {}}}
+    return desc
 
 
 def _worker_once(h, todo, d, name, limit):
